@@ -4,7 +4,7 @@ import common as C
 
 ID = "C06"
 LEVEL = "other"
-COQ_HEADER = "From MiniMcmc Require Import Model.MH."
+COQ_HEADER = "From MiniMcmc Require Import Model.ErgodicEval."
 RULE = ("R independent replications (derived seeds) of several short chains per sampler; for each test function (first and second "
         "moments, cross moment, one tail probability; state frequencies for the discrete table) the replication means give an "
         "estimate with a between-replication standard error (no ESS estimate involved); a statistic fails only for |z| > 6 AND a "
@@ -57,8 +57,9 @@ def generate(rng, tier):
                 if (q[i][j] > 0) != (q[j][i] > 0):
                     q[i][j] = max(q[i][j], 1)
                     q[j][i] = max(q[j][i], 1)
+        qi = [list(row) for row in q]
         q = [[x / sum(row) for x in row] for row in q]
-        cases.append({"op": "moments", "kind": "table", "f": "f64", "pi": pi, "q": q, "n_chains": 4, "n": 2000, "d": 200,
+        cases.append({"op": "moments", "kind": "table", "f": "f64", "pi": pi, "q": q, "w": w, "qi": qi, "n_chains": 4, "n": 2000, "d": 200,
                       "seeds": seeds(), "truth": pi, "names": ["P(state %d)" % i for i in range(k)]})
     # Gibbs: mixture 0.4 N(-1,1) + 0.6 N(1,1); state (x, z)   (overlapping modes so the sweep mixes)
     phi1 = 1 - 0.5 * math.erfc(1 / math.sqrt(2))
@@ -84,11 +85,57 @@ def run_impl(cases):
         return list(ex.map(lambda c: C.run_harness("C06", [c], timeout=3000)[0], cases))
 
 
+EMARK = -1000000023
+BLOCKS = [1, 2, 3]
+EVAL_STEPS = 24        # exact rationals: the law after 24 steps is evaluated in Coq; the bound after the whole burn-in follows from delta
+
+
 def coq_term(case, out):
-    return None
+    """table cases: the exact kernel of Model/MH.v on this table (Model/ErgodicEval.v, rationals): stationary law, minorisation
+    constant of the m-step kernel, Doeblin bound and exact l1 distance from stationarity after the burn-in, for m = 1, 2, 3"""
+    if case.get("kind") != "table" or "w" not in case:
+        return None
+    ws = C.zlist(case["w"])
+    qs = "[" + "; ".join(C.zlist(r) for r in case["qi"]) + "]"
+    return (" ++ [%s] ++ " % C.z(EMARK)).join("(ergo_eval %s %s %s %s 0%%nat)" % (ws, qs, C.natlit(m), C.natlit(EVAL_STEPS // m)) for m in BLOCKS)
+
+
+def ergo_parse(case, model):
+    from fractions import Fraction
+    k = len(case["w"])
+    segs, cur = [], []
+    for x in model:
+        if x == EMARK:
+            segs.append(cur)
+            cur = []
+        else:
+            cur.append(x)
+    segs.append(cur)
+    res = []
+    for m, sg in zip(BLOCKS, segs):
+        if len(sg) != 2 * k + 8:
+            return None
+        fr = [Fraction(sg[2 * i], sg[2 * i + 1]) for i in range(k + 3)]
+        res.append({"m": m, "pi": fr[:k], "delta": fr[k], "bound": fr[k + 1], "dist": fr[k + 2], "flags": sg[-2:]})
+    return res
 
 
 def compare(case, out, model):
+    if model is None:
+        return None
+    from fractions import Fraction
+    r = ergo_parse(case, model)
+    if r is None:
+        return "Model.ErgodicEval.ergo_eval: malformed output"
+    tot = sum(case["w"])
+    for e in r:
+        if e["pi"] != [Fraction(x, tot) for x in case["w"]]:
+            return "stationary law of the model kernel is not the table the statistical test compares with"
+        if e["flags"] != [1, 1]:
+            return ("Model.ErgodicEval on this table (block %d): flags %s — pi K = pi must hold exactly and the exact distance after the "
+                    "burn-in must respect the Doeblin bound (C06_eval_flags)" % (e["m"], e["flags"]))
+    if any(abs(float(a) - b) > 1e-12 for a, b in zip(r[0]["pi"], case["truth"])):
+        return "expected state probabilities of the statistical test differ from the model's stationary law"
     return None
 
 
@@ -145,9 +192,20 @@ def nontrivial(case, out):
 
 
 def extra(cases, outs, model):
+    erg = []
+    for c, mo in zip(cases, model or []):
+        if c.get("kind") == "table" and mo:
+            r = ergo_parse(c, mo)
+            if r:
+                k = len(c["w"])
+                erg.append({"states": k, "burn_in": c["d"],
+                            "per_block": [{"m": e["m"], "delta": float(e["delta"]),
+                                           "doeblin_bound_after_%d_steps" % (EVAL_STEPS // e["m"] * e["m"]): float(e["bound"]),
+                                           "exact_l1_distance_after_%d_steps" % (EVAL_STEPS // e["m"] * e["m"]): float(e["dist"]),
+                                           "doeblin_bound_after_burn_in": float(2 * (1 - k * e["delta"]) ** (c["d"] // e["m"]))} for e in r]})
     zs = []
     for c, o in zip(cases, outs):
         if c["op"] == "moments" and "reps" in o:
             for name, mean, truth, se, z in zscores(c, o):
                 zs.append({"sampler": c["kind"] + "/" + c["f"], "stat": name, "estimate": round(mean, 5), "exact": round(truth, 5), "z": round(z, 2)})
-    return {"statistics": len(zs), "max_abs_z": max(abs(z["z"]) for z in zs) if zs else 0, "z_table": zs}
+    return {"table_kernels_evaluated_in_coq": erg, "statistics": len(zs), "max_abs_z": max(abs(z["z"]) for z in zs) if zs else 0, "z_table": zs}
